@@ -115,7 +115,7 @@ func c19Config() TLSConfig {
 		c.CAServerName = "peer.example"
 	}
 	c.SkipCAVerification = verifNondetBool("skipVerification")
-	c19Cur = &c19Bundle{blocks: verifChoose("bundle-blocks", 3)}
+	c19Cur = &c19Bundle{blocks: verifChoose("bundle-blocks", verifParam("maxblocks", 2)+1)}
 	c19ReadErr = verifNondetBool("readFileFails")
 	c19KeyPairErr = verifNondetBool("keyPairFails")
 	netClient = c19Getter{fail: verifNondetBool("httpGetFails")}
